@@ -47,6 +47,48 @@ ALSO = {
            "later field.",
 }
 
+ALSO3 = {
+    "C01": "the fuse bookkeeping is followed by role (lists built locally and published into self.fused_items / self.fused_to_idxs); "
+           "an element-wise slice / index-list path that runs the loaders itself normalises a negative list entry first.",
+    "C02": "a table-driven __getattr__ keys its handlers by the part of the name before the first separator (a key cut at the last "
+           "separator misses item names that contain it).",
+    "C03": "a collection argument whose absence is marked by None is not also branched on by truth value (an empty selection is not "
+           "'no selection').",
+    "C04": "the stop condition, as a boolean function of the path conditions, equals under each single budget kind that budget's "
+           "comparison with the counter of its own unit; a budget converted between updates and samples through the batch size "
+           "outside a drop_last branch is reported; set_epoch precedes the point where an islice over the main sampler is created.",
+    "C05": "the condition under which a config's pass runs - OR over all paths of their branch conditions, boolean locals substituted - "
+           "equals OR over the interval kinds of (configured AND unit test) on the full truth table of its atomic tests (replaces "
+           "the store-shaped decision rules); a verdict read from the previous config iteration is reported.",
+    "C06": "merged completion branches are found on the CFG pruned by 'exactly start_<X> is given'.",
+    "C08": "a complete seeding pre-pass over the member list (no early exit) counts as injection for every element.",
+    "C10": "a per-sample paste takes its source row from the partner of the target row (row i of a partner-ordered gather, row "
+           "perm[i] of a plain clone).",
+    "C11": "in 'pad_or_cut_end' the padding amounts sit in the 'after' slots of the list handed to pad; the constructor's fuse "
+           "bookkeeping rules of C01 (declared order, membership scope, paired appends, append-only) are part of this check.",
+    "C12": "the epoch attribute does not occur only inside the fall-back arm of an 'or' in the seed; a draw shortened before "
+           "repeat_interleave keeps ceil(len / num_repeats) entries; a global cut to len(self) * world size before an open-ended "
+           "rank split is accepted as the truncation.",
+    "C13": "the semi-supervised stream is recognised position-wise (i % (L+U) < L) or chunk-wise (divmod / islice of the pool "
+           "iterators: L then U per full chunk, min(rest, L) then max(rest - L, 0) at the end).",
+    "C14": "an extent measured with get_image_size / get_dimensions is not used after the image was re-bound by an operation that "
+           "changes that axis.",
+    "C15": "a _scale_strength never branches on the truth value of a constructed original (0 is a legal original); the drop_last and "
+           "non-drop_last arms of the schedule length divide one and the same per-rank length.",
+    "C16": "a label composed as low + (x % K) * S uses stride x modulus = the class count declared by getshape_class; every return "
+           "of a label-rewriting getitem_class that tests for the unlabeled marker lies behind that test (pass-through returns "
+           "excepted).",
+    "C17": "whenever a context is given, every normal return of collate is preceded on every path by the store of each mask entry the "
+           "collator produces.",
+    "C18": "the collator pipeline is checked as a typestate model (loop body interpreted over its flags for every mode, return_ctx "
+           "setting and reachable state; properties stated on ghost state 'collated' / 'context split'); a field reaches pad_sequence "
+           "exactly if it is a tensor of rank >= 1 (path conditions of the pad_sequence / default_collate calls, ranks 0..4).",
+    "C19": "a cache.get(idx) look-up counts as a hit only under 'idx in cache' or 'value is not None or idx in cache' (a cached None "
+           "is a hit).",
+    "C20": "marker order is judged on the feasible runs of the abstract interpreter (flags and persistent state followed); crash "
+           "points are named by (effect, situation the call started in).",
+}
+
 CLAIMS = {
     "C17": ("dominance / guard rules on the mask-writing paths, polynomial block bounds, dependence of block sizes on the step-seeded generator",
             "Decides: KDDinoMaskCollator generates masks only for masks[i], i < int(batch_size * num_views * mask_prob), out of "
@@ -185,9 +227,11 @@ CLAIMS = {
             "is dropped only at the epoch end after the stopping test; epoch length formula (len | (len // b) * b with "
             "b = drop_last_batch_size if given else batch_size); the batch sampler emits exactly at flagged indices into "
             "fresh lists and asserts an empty remainder. Stream values for concrete (N, B, budget) are not decided."),
-    "C05": ("monotone-flag dataflow, unit typing of interval tests, offset/index pairing and sibling summaries",
-            "Decides: the per-config decision flag starts False per config and can only be raised (no interval kind cancels "
-            "another); each interval kind is consulted under its own None-test, against the progress counter of its own "
+    "C05": ("path conditions of the pass as a boolean function (truth table over role-classified atomic tests), unit typing of "
+            "interval tests, offset/index pairing and sibling summaries",
+            "Decides: the condition under which a config's pass runs equals OR over the interval kinds of (interval configured "
+            "AND its unit test) - no interval kind cancels another, no verdict leaks from the previous config; each interval "
+            "kind is tested against the progress counter of its own "
             "unit, in the form counter % n == 0 (or the crossing form for samples), the epoch verdict requiring the epoch "
             "end; the config loop lies in the update block after the increments on every path, in config order; the "
             "'sample count at last update' is refreshed only after it; every pass index is index_offsets[k] + i with k, i "
@@ -237,6 +281,9 @@ def main():
         tech, text = CLAIMS[pid]
         if pid in ALSO:
             text = text + " Also decided (added with the second round of independent changes): " + ALSO[pid]
+        if pid in ALSO3:
+            text = text + " Added / re-founded with the third round (clean-ups with one buried mistake, and their repaired twins): " \
+                + ALSO3[pid]
         checks.append({
             "property_id": pid,
             "quick_cmd": f"./check {pid} quick",
